@@ -90,6 +90,7 @@ Eff(S, e) ==
     [] e.k = "cancelall" -> CancelAllEff(Z(S), e.sym)
     [] e.k = "prune" -> PruneEff(Z(S), e.sym)
     [] e.k = "price" -> PriceEff(Z(S), e.sym, e.p)
+    [] e.k = "obs" -> S                         \* observation point: nothing was called
 R(v, k) == [v |-> v, k |-> k]
 Both(S, e, P, pk) ==
   LET tag == Tag(S, e)
@@ -115,7 +116,7 @@ Judge(S, e, pk) ==
             ELSE IF ~e.acc THEN R("ok", "")                          \* a rejected submission ends the sequence
             ELSE Both(S, e, P, pk)
   ELSE IF e.k = "submit" /\ ~e.acc THEN R("ok", "")
-  ELSE IF e.k \in {"submit", "cancel", "exec", "flush", "cancelall", "prune", "price"} THEN Both(S, e, P, pk)
+  ELSE IF e.k \in {"submit", "cancel", "exec", "flush", "cancelall", "prune", "price", "obs"} THEN Both(S, e, P, pk)
   ELSE R("log:unknown-event", "")
 
 \* in-vivo traces (hdr.haspre): other things happen between two order calls, so every event carries the state
@@ -132,7 +133,7 @@ TInit == /\ tid \in 1..Len(Traces) /\ l = 1 /\ hist = <<>> /\ known = {}
                        ELSE IF Traces[tid].hdr.judgeinit /\ PostChecks(Traces[tid].init, FromLog(Traces[tid].init)) # "ok"
                             THEN "init:" \o PostChecks(Traces[tid].init, FromLog(Traces[tid].init)) ELSE "ok")
 TStep == /\ verdict = "ok" /\ l <= Len(Ev(tid))
-         /\ LET e == Ev(tid)[l]  j == Judge(PreOf(e), e, PokOf(e)) IN
+         /\ LET e == Ev(tid)[l]  j == Judge(PreOf(e), e, IF e.k = "obs" THEN pok ELSE PokOf(e)) IN
               /\ verdict' = j.v
               /\ known' = IF j.k = "" THEN known ELSE known \cup {j.k}
               /\ st' = FromLog(e.post)
